@@ -22,13 +22,17 @@ HERE = os.path.dirname(os.path.abspath(__file__))
 VERIF = os.path.dirname(HERE)
 
 
-def _extract_playback_test(out):
-    m = re.search(r"```\s*\n((?:\s*///[^\n]*\n)*\s*#\[test\].*?)```", out, re.S)
-    if not m:
-        return None, None
-    test = m.group(1)
-    nm = re.search(r"fn\s+(kani_concrete_playback_\w+)", test)
-    return test, (nm.group(1) if nm else None)
+def _extract_playback_tests(out):
+    """all printed playback tests, failing-check tests first (Kani also prints one per satisfied cover)"""
+    tests = []
+    for m in re.finditer(r"```\s*\n((?:\s*///[^\n]*\n)*\s*#\[test\].*?)```", out, re.S):
+        test = m.group(1)
+        nm = re.search(r"fn\s+(kani_concrete_playback_\w+)", test)
+        is_cover = bool(re.search(r"Check for `cover`", test))
+        if nm:
+            tests.append((is_cover, test, nm.group(1)))
+    tests.sort(key=lambda t: t[0])
+    return [(t, n) for c, t, n in tests if not c]
 
 
 def _native_playback(ks, module, test_src, test_name, timeout=900):
@@ -75,16 +79,19 @@ def make(pid, ob, ks, obligations, spec):
                 module = hs.get(harness, {}).get("module")
                 rc, out, err, dt = ks.run_single_regular(harness, playback=True)
                 rec["kani_failed_checks"] = re.findall(r"Failed Checks: [^\n]*\n[^\n]*", out)[:10]
-                test, name = _extract_playback_test(out)
-                if "VERIFICATION:- FAILED" in out and test and module:
-                    rec["playback_test"] = test
-                    rec["playback_test_name"] = name
+                tests = _extract_playback_tests(out)
+                if "VERIFICATION:- FAILED" in out and tests and module:
                     rec["harness"] = harness
                     rec["harness_module"] = module
-                    nat = _native_playback(ks, module, test, name)
-                    rec["native"] = nat
-                    rec["reproduced"] = nat["reproduced"]
-                    rec["concrete_values"] = re.findall(r"//\s*(.*)\n\s*vec!\[[^\]]*\]", test)[:40]
+                    for test, name in tests[:4]:
+                        nat = _native_playback(ks, module, test, name)
+                        rec["playback_test"] = test
+                        rec["playback_test_name"] = name
+                        rec["native"] = nat
+                        rec["reproduced"] = nat["reproduced"]
+                        rec["concrete_values"] = re.findall(r"//\s*(.*)\n\s*vec!\[[^\]]*\]", test)[:40]
+                        if nat["reproduced"]:
+                            break
                 elif "VERIFICATION:- FAILED" in out:
                     rec["note"] = "verifier fails but produced no concrete playback test (e.g. a reachable cover, or a should_panic harness that returns)"
                     rec["verifier_tail"] = out[-3000:]
